@@ -648,6 +648,11 @@ func (self Reflect) ReadFieldWithFieldName(fieldName string, m meta.Leafable, pt
 		fieldVal = fieldVal.Slice(0, fieldVal.Len())
 	}
 
+	// a nil slice is an unset leaf-list, not an empty one
+	if dt.Format().IsList() && fieldVal.Kind() == reflect.Slice && fieldVal.IsNil() {
+		return nil, nil
+	}
+
 	switch dt.Format() {
 	case val.FmtString:
 		var s string
